@@ -32,7 +32,7 @@ def short(x):
 class C16(Prop):
     id = "C16"
     props_file = ["Props/C16.v", "Props/C16_Bridge.v", "Props/C16_Live.v", "Props/C16_Examples.v"]
-    coq_imports = ["From ONL Require Import Base.Cmp Tcp.Sink Tcp.Sender Tcp.Cubic Tcp.Loop."]
+    coq_imports = ["From ONL Require Import Base.Cmp Tcp.Sink Tcp.Sender Tcp.Cubic Tcp.AppSender Tcp.Loop."]
     n_quick = 1000
     n_thorough = 20000
     shard = 40
